@@ -25,7 +25,7 @@ def build_model(law, variant, ns=3):
     m = Model(species=sp, initialize_model=False)
     named = variant == 1
     if law["type"] == "massaction":
-        re_ = ["S%d" % i for i in law["re"]]
+        re_ = ["S%d" % i for i in (law.get("written") or law["re"])]
         pr = ["P"] + ([re_[0]] if (variant == 1 and re_) else [])
         pd = {"k": "kk" if named else f(law["k"])}
         m.create_reaction(re_, pr, "massaction", pd)
@@ -88,8 +88,28 @@ def _lawkey(law):
 def finding_key(law, b):
     if law["type"] == "massaction":
         rep = max([law["re"].count(s) for s in set(law["re"])] or [0])
-        return "massaction:order=%d,repeated=%s,mode=%s" % (len(law["re"]), "yes" if rep > 1 else "no", b["mode"])
+        return "massaction:order=%d,repeated=%s,mode=%s%s" % (len(law["re"]), "yes" if rep > 1 else "no", b["mode"],
+                                                              ",written-order=other" if law.get("written") else "")
     return "%s:mode=%s" % (law["type"], b["mode"])
+
+
+def written_orders(law, all_orders=False):
+    """orders (other than the non-decreasing one) in which the reactant multiset of a mass-action law is written"""
+    import itertools
+    re_ = list(law["re"])
+    if law["type"] != "massaction" or len(set(re_)) < 2:
+        return []
+    if all_orders:
+        out = sorted(set(itertools.permutations(re_)))
+    else:
+        apart = sorted(range(len(re_)), key=lambda i: (re_[:i].count(re_[i]), re_[i]))     # 1,1,2 -> 1,2,1
+        out = [tuple(reversed(re_)), tuple(re_[i] for i in apart), tuple(re_[i] for i in reversed(apart))]
+    seen, res = {tuple(re_)}, []
+    for w in out:
+        if w not in seen:
+            seen.add(w)
+            res.append(list(w))
+    return res
 
 
 def tlc_grid(tier):
@@ -112,7 +132,7 @@ def run(tier):
     cmds = []
     for name, consts in tlc_grid(tier):
         cfg = common.make_cfg("rateprobe_" + name, spec="Spec", constants=consts,
-                              invariants=["Identities", "NonNegative", "Emit"])
+                              invariants=["Identities", "OrderInvariant", "NonNegative", "Emit"])
         r = common.run_tlc("RateProbe", cfg, allow_violation=True, keep_stdout=False)
         if r.violated:
             v.violation("spec:" + r.violated, "TLC refuted %s on RateLaws/RateProbe (%s)" % (r.violated, name), {"tlc_tail": r.stdout[-3000:]})
@@ -124,10 +144,17 @@ def run(tier):
     for rec in recs:
         bylaw.setdefault(_lawkey(rec["law"]) + "|%d" % len(rec["pt"]["x"]), (rec["law"], []))[1].append(rec["pt"])
     jobs = []
+    n_orders = 0
     for k, (law, pts) in bylaw.items():
         for variant in (0, 1):
             for ch in pool.chunks(pts, 400):
                 jobs.append({"law": law, "variant": variant, "pts": ch})
+        # the same law with its reactants written in other orders (RateProbe.OrderInvariant): reversed and with the
+        # copies of a repeated reactant apart (A+B+A); every order of the multiset in the thorough tier
+        for j, wr in enumerate(written_orders(law, all_orders=(tier != "quick"))):
+            n_orders += 1
+            for ch in pool.chunks(pts, 400):
+                jobs.append({"law": dict(law, written=wr), "variant": j % 2, "pts": ch})
     results = pool.run_jobs("c01", "impl_eval", jobs)
     n_eval = 0
     frac_exp = sum(1 for rec in recs if rec["law"]["n"][1] != 1)
@@ -146,7 +173,7 @@ def run(tier):
     rc = v.finish()
     s = recs[len(recs) // 3]
     cov = {"states": states, "transitions": trans, "traces_validated_against_impl": len(recs),
-           "samples": [s], "exhaustive": True, "grid_points": len(recs), "laws": len(bylaw),
+           "samples": [s], "exhaustive": True, "grid_points": len(recs), "laws": len(bylaw), "laws_in_other_written_orders": n_orders,
            "implementation_evaluations": n_eval, "points_with_fractional_exponent": frac_exp,
            "access_paths": ["bare propensity object", "plain interface", "safe interface"], "modes": list(MODES),
            "checker_cmd": " ; ".join(cmds)}
